@@ -60,7 +60,8 @@ for d in sorted(glob.glob(f"{V}/seeded/*/meta.json")):
     low=own.lower()
     if 'first version' in low or 'first catalogue' in low or low.startswith('detected after') or low.startswith('detected (after') or low.startswith('detected (quick, after') or low.startswith('missed') or 'added after' in low:
         rounds[suf][1]+=1
-out.append("Rounds: " + "; ".join(f"-{k}: {v[0]} changes, {v[1]} not caught by the owning check as it was then (each led to the strengthening named in its row; all are caught now)" for k,v in sorted(rounds.items())) + ". The owning check is the one for the property the sub-agent was given; other checks that were tried are listed as well, a miss by a non-owner is not a defect of that check.\n")
+still=[os.path.basename(os.path.dirname(d)) for d in sorted(glob.glob(f"{V}/seeded/*/meta.json")) if json.load(open(d))['results'].get(json.load(open(d))['property'],'').lower().startswith('missed')]
+out.append("Rounds: " + "; ".join(f"-{k}: {v[0]} changes, {v[1]} not caught by the owning check as it was then (each led to the strengthening named in its row)" for k,v in sorted(rounds.items())) + ". Still not caught by the owning check, for the reason given in the row: " + (", ".join(still) if still else "none") + ". The owning check is the one for the property the sub-agent was given; other checks that were tried are listed as well, a miss by a non-owner is not a defect of that check.\n")
 out.append("| seed | what it needs to manifest | checks (quick tier) |")
 out.append("|---|---|---|")
 for d in sorted(glob.glob(f"{V}/seeded/*/meta.json")):
